@@ -51,8 +51,7 @@ class C13:
         for v in TARGETS:
             for host in (["3.12", v] if v in HOSTS and v != "3.12" else ["3.12"]):
                 for kind, w in (("exec", 2), ("consts", 1), ("fields", 1)):
-                    if kind == "fields" and v in ("3.11", "3.12", "3.13"):
-                        continue        # (3.11+ has no co_nlocals field to disagree with the names)
+
                     out.append(["%s:%s:on-%s" % (kind, v, host), self.case_strategy(v, host, kind), w])
         return out
 
@@ -173,10 +172,14 @@ class C13:
             except Exception:
                 res.reject = "malformed-case"
                 return res
-            tree = rm.template_code_tree(v, ["T", [["N"], ["i", "7"]]], varnames=["v%d" % i for i in range(nvars)], extra=extra)
             if pd.vt(v) >= (3, 11):
-                res.reject = "fields-case-needs-co_nlocals(<3.11)"
-                return res
+                # no co_nlocals field; instead: a qualified name that is empty, or differs from the name in odd ways
+                del extra["co_nlocals"]
+                if int(extra["co_stacksize"][1]) == 0:
+                    extra["co_stacksize"] = ["i", "1"]      # (3.13's code constructor raises a zero stack size to 1 itself)
+                q = ["", "f", "<locals>.f", "a.b.<locals>.\u00e9"][int(case["nlocals"]) % 4]
+                extra["co_qualname"] = ["t", rw.hx(q.encode("utf-8"))]
+            tree = rm.template_code_tree(v, ["T", [["N"], ["i", "7"]]], varnames=["v%d" % i for i in range(nvars)], extra=extra)
             payload, _ = rm.encode(tree, v)
             hdr = ctx.pool.ref(v).call("compile", src="pass", dis=False, filename="prog.py")["header"]
             ld = ctx.pool.ref(v).call_raw("loads", payload=rw.hx(payload))
